@@ -263,7 +263,16 @@ impl Sup {
 
     /// one case: run the job, write the case line, report failures
     fn case(&mut self, kind: &str, origin: &str, a: &str, b: &str) {
-        let ans = self.run(kind, a, b);
+        let mut ans = self.run(kind, a, b);
+        if let Answer::Timeout = ans {
+            // a loaded machine can make a job slow: only a job that also exceeds ten times the
+            // limit in a fresh worker is reported
+            self.out.count("watchdog:retry");
+            let base = self.timeout;
+            self.timeout = base * 10;
+            ans = self.run(kind, a, b);
+            self.timeout = base;
+        }
         self.out.count(&format!("origin:{}", origin));
         let shown_a = if a.len() > 4000 { format!("{}…[{} bytes]…{}", &a[..safe_cut(a, 300)], a.len(), &a[a.len() - safe_cut_back(a, 100)..]) } else { a.to_string() };
         let (status, fail): (String, Option<(String, String)>) = match ans {
@@ -274,7 +283,7 @@ impl Sup {
             Answer::Bad(p) => ("bad".into(), Some((format!("{origin}: {}", first_words(&p)), p))),
             Answer::Panic(p) => ("panic".into(), Some((format!("{origin}: panic"), p))),
             Answer::Crash(s) => ("crash".into(), Some((format!("{origin}: worker process died ({s})"), s))),
-            Answer::Timeout => ("timeout".into(), Some((format!("{origin}: no answer within {:?}", self.timeout), String::new()))),
+            Answer::Timeout => ("timeout".into(), Some((format!("{origin}: no answer within {:?} (second attempt)", self.timeout * 10), String::new()))),
         };
         // only `text` cases of moderate size go to the Lean driver
         let driver_kind = if kind == "text" && a.len() <= 3000 { "text" } else { "other" };
@@ -283,7 +292,10 @@ impl Sup {
             let flag = guarded(move || lex_obs(&a2).map(|x| x.1)).ok().flatten().unwrap_or_else(|| "-".into());
             self.out.case(true, "text", &[esc(a), esc(&status), flag])
         } else {
-            self.out.case(true, "other", &[esc(kind), esc(origin), esc(&status), (a.len() + b.len()).to_string()])
+            // the payload is kept (for --replay) unless it is large
+            let keep = a.len() + b.len() <= 60_000;
+            self.out.case(true, "other", &[esc(kind), esc(origin), esc(&status), (a.len() + b.len()).to_string(),
+                if keep { esc(a) } else { "-".into() }, if keep { esc(b) } else { "-".into() }])
         };
         if let Some((sig, detail)) = fail {
             self.out.fail(&id, &sig, &format!("{detail} kind={kind} input={:?} packages={}", shown_a, if b.len() > 300 { &b[..300] } else { b }));
@@ -479,6 +491,9 @@ fn main() {
             let parts: Vec<&str> = line.split('\t').collect();
             if parts.first() == Some(&"CASE") && parts.len() >= 5 && parts[3] == "text" {
                 sup.case("text", "replay", &unesc_field(parts[4]), "");
+            } else if parts.first() == Some(&"CASE") && parts.len() >= 10 && parts[3] == "other" && parts[8] != "-" {
+                // other <kind> <origin> <status> <size> <a> <b>
+                sup.case(&unesc_field(parts[4]), &unesc_field(parts[5]), &unesc_field(parts[8]), &unesc_field(parts[9]));
             }
         }
         sup.out.finish();
